@@ -94,7 +94,7 @@ def generate(G):
                     {"program": desc, "leaves": [[2], [2]], "tracked": [t0, t1], "seed": "explicit D4"}, unwind=6)
 
     # ---- (iii) data-dependent control flow (non-merging decision tree)
-    for it, tier in ((1, "quick"), (2, "thorough"), (3, "experimental")):
+    for it, tier in ((1, "thorough"), (2, "experimental")):
         G.ob("c01_control_flow_%d" % it, "C01", "control_flow", "c01::control_flow(s, %d)" % it, unwind=7, tier=tier, heavy=True,
              skeleton={"program": "README loop: c = c + a*b; if c[0] > t { c = c*a }", "iterations": it, "leaves_of_the_decision_tree": 2 ** it,
                        "shape": [1]}, domains="a, b, c, seed: D4; threshold t in {0.5, 2.5, 4.5, 6.5}")
@@ -119,12 +119,12 @@ def generate(G):
         ("divsum", "DivSum", [L([1, 2], "Pos")], "Explicit(Dom::D4)", "quick", 6, ("powf",), True),
         ("sumbcast", "SumBcast", [L([2, 2, 2], "D2")], "Explicit(Dom::D2)", "thorough", 14, (), False),
         ("reshapemix", "ReshapeMix", [L([2, 3], "D2"), L([3, 2], "D2")], "Explicit(Dom::D2)", "quick", 16, (), False),
-        ("matmulshare", "MatmulShare", [L([2, 2], "D2"), L([2, 2], "D2"), L([2], "D2")], "Explicit(Dom::D2)", "quick", 14, (), False),
+        ("matmulshare", "MatmulShare", [L([2, 2], "D2"), L([2, 2], "D2"), L([2], "D2")], "Explicit(Dom::D2)", "thorough", 14, (), False),
         ("relumix", "ReluMix", [L([2], "Sgn"), L([2], "Sgn")], "Explicit(Dom::D4)", "quick", 6, (), False),
         ("lnexp", "LnExp", [L([2], "Pos"), L([2]), L([2])], "Explicit(Dom::D4)", "quick", 10, ("ln", "exp", "powf"), True),
         ("keepmid", "KeepMid", [L([2]), L([2])], "Explicit(Dom::D4)", "thorough", 6, (), False),
         ("detachmid", "DetachMid", [L([2]), L([2])], "Explicit(Dom::D4)", "quick", 6, (), False),
-        ("convsquare_b2", "ConvSquare", [L([2, 1, 2, 2], "D2"), L([1, 1, 2, 1], "D2")], "Explicit(Dom::D2)", "quick", 20, (), False),
+        ("convsquare_b2", "ConvSquare", [L([2, 1, 2, 2], "D2"), L([1, 1, 2, 1], "D2")], "Explicit(Dom::D2)", "thorough", 20, (), False),
         ("muladdshare_start_tracking", "MulAddShare", [G.leaf_st([2]), L([2])], "Explicit(Dom::D4)", "thorough", 6, (), False),
         ("diamond_2x2", "Diamond", [L([2, 2], "D2"), L([2, 2], "D2")], "Explicit(Dom::D4)", "thorough", 8, (), False),
         ("fan3_3", "Fan3", [L([3]), L([3])], "Explicit(Dom::D4)", "thorough", 6, (), False),
